@@ -10,6 +10,8 @@ Driver of C03 / C04 (exe `nv_c03`), line protocol:
   (valid.schema (tsdoc …))         → (schema true|false)
   (kinds.table)                    → (kinds ("5.3.1" FieldNotFound …) …)              Spec/Valid.kindsOf
   (all (tsdoc …) (doc …))          → (all (errs …) (rules …) (spec …) (schema …))   the four answers at once
+  (all* (tsdoc …) (doc …) (doc …) …) → (all* (all …) (all …) …)       `all` for many documents over ONE schema (the schema is
+                                                                      parsed, decoded and judged once)
 The tsdoc is the RESOLVED type-system document (built-ins included) the real `ast_to_type_system` consumes.
 -/
 open NitroVerif NitroVerif.Gql
@@ -42,6 +44,16 @@ def handle : Sexp → Sexp
     | none => Sexp.err "cannot decode tsdoc"
   | .list [.atom "all", ts, d] => withInput ts d fun S D =>
     .list [.atom "all", errsSexp (CheckOp.checkOp S D), rulesSexp S D, specSexp S D, schemaSexp S]
+  | .list (.atom "all*" :: ts :: ds) =>
+    match Dec.tsDoc ts with
+    | none => Sexp.err "cannot decode tsdoc"
+    | some t =>
+      let S : Schema := ⟨t⟩
+      let sv := schemaSexp S
+      .list (.atom "all*" :: ds.map fun d =>
+        match Dec.doc d with
+        | some D => .list [.atom "all", errsSexp (CheckOp.checkOp S D), rulesSexp S D, specSexp S D, sv]
+        | none => Sexp.err "cannot decode doc")
   | .list [.atom "kinds.table"] =>
     .list (.atom "kinds" :: (Valid.ruleTable ++ Valid.extraRuleTable).map fun r =>
       .list (.str r.1 :: (Valid.kindsOf r.1).map fun k => .atom k.toString))
